@@ -65,6 +65,7 @@ type c16In struct {
 	Steps      []c16Step  `json:"steps"`
 	Concurrent bool       `json:"concurrent,omitempty"` // orders run as free goroutines; Steps is one serialization
 	Override   bool       `json:"override,omitempty"`   // DNS01Solver.OverrideDomain is set: every DNS challenge uses that one record name
+	Cfg        *c16Cfg    `json:"cfg,omitempty"`        // an issuer configuration whose solver set is looked at (c16_cfg.go)
 	E2E        *c16E2E    `json:"e2e,omitempty"`        // whole orders through the real ACMEIssuer and the mock CA (c16_e2e.go)
 }
 
@@ -436,6 +437,9 @@ func (e *c16Env) runHistory(w *emit.Writer, in c16In, desc map[string]any, r *ra
 	if in.E2E != nil {
 		return e.runE2E(w, in, desc, r)
 	}
+	if in.Cfg != nil {
+		return e.runCfg(w, *in.Cfg, desc)
+	}
 	h, err := e.setup(in, r)
 	if err != nil {
 		return err
@@ -584,6 +588,7 @@ func (e *c16Env) runHistory(w *emit.Writer, in c16In, desc map[string]any, r *ra
 		}
 	}
 	enc.Len(0) // no end-to-end items
+	enc.Len(0) // no configuration
 	for k, v := range desc {
 		if s, ok := v.(string); ok {
 			w.Hist(k + "=" + s)
@@ -669,7 +674,7 @@ func runC16(tier string, seed int64, outdir string, replay string) (retErr error
 	defer env.closeE2E()
 	r := rand.New(rand.NewSource(seed))
 	thorough := tier == "thorough"
-	w.Meta.Rule = "distinct histories with at least two orders (sharing a listener address or a DNS record name, or side by side) or at least one injected fault"
+	w.Meta.Rule = "distinct histories with at least two orders (sharing a listener address or a DNS record name, or side by side) or at least one injected fault; sync points of end-to-end orders; issuer configurations of the enumerated grid (solver set)"
 	defer func() {
 		w.Meta.Oracles = append(w.Meta.Oracles, emit.OracleCheck{
 			Name:   fmt.Sprintf("a pending HTTP-01 / TLS-ALPN-01 challenge is answered over the network through the solver's own listener (%d validations)", env.e2eOK+len(env.e2eBad)),
@@ -745,6 +750,13 @@ func runC16(tier string, seed int64, outdir string, replay string) (retErr error
 		return err
 	}
 
+	// ---- CFG. the solver set of every issuer configuration of the grid
+	for _, c := range c16CfgGrid() {
+		c := c
+		if err := run(c16In{Cfg: &c}, map[string]any{"shape": "config", "cfg_dns": fmt.Sprint(c.DNS), "cfg_host": c.ListenHost}); err != nil {
+			return err
+		}
+	}
 	// ---- E2E. whole orders through the real ACMEIssuer against the mock ACME CA
 	{
 		type sc struct {
